@@ -259,7 +259,7 @@ CALLBACK_NAMES = frozenset(["recv_callback", "conn_lost_callback"])
 # ----------------------------------------------------------------------------- one execution
 class _T:
     __slots__ = ("idx", "name", "body", "baton", "status", "lock", "sleep_mark", "pos", "log", "nsleeps", "npolls",
-                 "last_sleep_seq", "last_sleep_pos", "clean", "thread", "gtrace", "op")
+                 "last_sleep_seq", "last_sleep_pos", "clean", "thread", "gtrace", "op", "P", "E", "S")
 
     def __init__(self, idx, name, body):
         self.idx = idx
@@ -280,15 +280,19 @@ class _T:
         self.thread = None
         self.gtrace = None
         self.op = None
+        self.P: set = set()      # fair scheduling (Musuvathi/Qadeer 2008): threads that have priority over this one
+        self.E: set = set()      # threads continuously enabled since this thread's last yield
+        self.S: set = set()      # threads scheduled since this thread's last yield
 
 
 class Result:
     __slots__ = ("outcome", "detail", "logs", "steps", "preemptions", "alts", "switches", "final", "nsleeps", "npolls",
-                 "lock_blocks", "positions", "pruned")
+                 "lock_blocks", "positions", "pruned", "cost", "unfair_pruned")
 
     def key(self):
         """What must be identical when the same schedule is replayed."""
-        return (self.outcome, self.detail, self.logs, self.steps, self.preemptions, self.alts, self.switches, self.final)
+        return (self.outcome, self.detail, self.logs, self.steps, self.preemptions, self.cost, self.alts, self.switches,
+                self.final)
 
 
 class Execution:
@@ -329,6 +333,9 @@ class Execution:
         self.pending_acc = 0
         self.pending_owner: Optional[_T] = None
         self.pruned = 0
+        self.fair = False
+        self.unfair_pruned = 0
+        self.free_devs = 0
 
     # ---- setup -------------------------------------------------------------------
     def spawn(self, name: str, body: Callable[["_T"], None]) -> _T:
@@ -467,7 +474,13 @@ class Execution:
         if step >= self.horizon:
             self._abort(me, "horizon", {"steps": step})
             return
-        enabled = [t for t in threads if self._enabled(t)]
+        progress = self.progress
+        enabled = []
+        for t in threads:
+            st = t.status
+            if (st is RUN or st is NEW or (st is SLEEP and progress > t.sleep_mark)
+                    or (st is BLOCK and t.lock.owner is None)):
+                enabled.append(t)
         if not enabled:
             unfinished = [t for t in threads if t.status is not DONE]
             if not unfinished:
@@ -490,6 +503,21 @@ class Execution:
                             self._describe(unfinished))
                 return
         me_enabled = me is not None and me.status is RUN
+        if self.fair:
+            ens = {t.idx for t in enabled}
+            for u in threads:
+                u.E &= ens
+            if kind is SLEEP:
+                # `me` yielded: whoever was enabled during its whole last round and never got to run goes first from now on
+                me.P |= (me.E - me.S)
+                me.P.discard(me.idx)
+                me.E = set(ens)
+                me.S = set()
+            allowed = [t for t in enabled if t is me and me_enabled or not (t.P & ens)]
+            if allowed:
+                if len(allowed) < len(enabled):
+                    self.unfair_pruned += len(enabled) - len(allowed)
+                enabled = allowed
         if me_enabled:
             default = me
         else:                      # fair default: next enabled thread in cyclic order after the one that just yielded
@@ -515,7 +543,11 @@ class Execution:
                 raise _Abort()
             nxt = cand[0]
         elif step > self.last_dev_step and len(enabled) > 1:
-            cost = self.preemptions + (1 if me_enabled else 0)
+            # cost of an alternative: a preemption costs 1; a switch at a blocking point / thread end is free, except
+            # that with three or more threads picking another successor than the fair round-robin one is charged as one
+            # deviation as well (otherwise the zero-cost tree alone is exponential in the number of polling rounds);
+            # the choice of the thread that starts is always free
+            cost = self.preemptions + self.free_devs + (1 if (me_enabled or (self.fair and me is not None)) else 0)
             if me_enabled and self.reduce:
                 self.pending = [(step, t.idx, cost) for t in enabled if t is not default]
                 self.pending_acc = self.acc
@@ -524,9 +556,16 @@ class Execution:
                 for t in enabled:
                     if t is not default:
                         self.alts.append((step, t.idx, cost))
+        if self.fair:
+            i = nxt.idx
+            for u in threads:
+                u.P.discard(i)
+                u.S.add(i)
         if nxt is not me:
             if me_enabled:
                 self.preemptions += 1
+            elif self.fair and me is not None and nxt is not default:
+                self.free_devs += 1
             if True:
                 self.switches.append((step, me.idx if me is not None else -1, nxt.idx, 1 if me_enabled else 0,
                                       (me.pos, me.status) if me is not None else None))
@@ -604,6 +643,9 @@ class Execution:
         if not self.threads:
             raise ScheduleError("no threads")
         init_tracing()
+        self.fair = len(self.threads) >= 3      # with two threads the sleep rule alone is already fair
+        for t in self.threads:
+            t.E = set(range(len(self.threads)))
         import netqasm.sdk.classical_communication.thread_socket.socket_hub as hubmod
         saved = (hubmod.sleep, hubmod.timer, _CURRENT)
         hubmod.sleep = _sched_sleep
@@ -643,6 +685,8 @@ class Execution:
         r.lock_blocks = self.lock_blocks
         r.positions = None
         r.pruned = self.pruned
+        r.cost = self.preemptions + self.free_devs
+        r.unfair_pruned = self.unfair_pruned
         return r
 
 
@@ -743,7 +787,8 @@ def run_twice(run_one: Callable[[List], Result], devs) -> Result:
 
 
 def explore(run_one: Callable[[List], Result], roots: List[Tuple[List, int]], max_bound: int,
-            judge: Callable[[Result, List], bool], stats: Stats, det_first: int = 20, gc_every: int = 256) -> None:
+            judge: Callable[[Result, List], bool], stats: Stats, det_first: int = 20, gc_every: int = 256,
+            overflow: Optional[List[Tuple[List, int]]] = None) -> None:
     """roots: (deviation list, number of preemptions of that schedule).  `judge(result, devs)` returns True when the
     execution is a counterexample (it is then replayed and must reproduce identically).  Layered by preemptions."""
     install_quiet_abort()
@@ -767,15 +812,15 @@ def explore(run_one: Callable[[List], Result], roots: List[Tuple[List, int]], ma
                     res = run_one(devs)
                 stats.executions += 1
                 stats.transitions += res.steps
-                stats.by_preemptions[res.preemptions] = stats.by_preemptions.get(res.preemptions, 0) + 1
+                stats.by_preemptions[res.cost] = stats.by_preemptions.get(res.cost, 0) + 1
                 stats.max_steps = max(stats.max_steps, res.steps)
                 stats.nsleeps += res.nsleeps
                 stats.npolls += res.npolls
                 stats.lock_blocks += res.lock_blocks
                 if res.outcome == "horizon":
                     stats.horizon_hits += 1
-                if res.preemptions != bound:
-                    raise ScheduleError(f"schedule {devs} was filed under {bound} preemptions but has {res.preemptions}")
+                if res.cost != bound:
+                    raise ScheduleError(f"schedule {devs} was filed under cost {bound} but has cost {res.cost}")
                 if judge(res, devs):
                     again = run_one(devs)
                     stats.replayed += 1
@@ -791,6 +836,8 @@ def explore(run_one: Callable[[List], Result], roots: List[Tuple[List, int]], ma
                         layers.setdefault(cost, []).append(child)
                     else:
                         stats.deferred_beyond_bound += 1
+                        if overflow is not None:
+                            overflow.append((child, cost))
                 children_now.reverse()
                 stack.extend(children_now)
     finally:
@@ -805,15 +852,27 @@ def first_level(run_one: Callable[[List], Result]) -> Tuple[Result, List[Tuple[L
     return res, [([[s, t]], c) for s, t, c in res.alts]
 
 
+def _src(f: int, ln: int) -> str:
+    import linecache
+    for fn, idx in _TRACED.items():
+        if idx == f:
+            return linecache.getline(fn, ln).strip()
+    return ""
+
+
 def narrative(res: Result) -> List[str]:
+    """Human-readable list of the context switches of one execution (a position is the line the thread executes NEXT)."""
     out = []
     for step, frm, to, cost, where in res.switches:
         if frm < 0:
             out.append(f"decision {step}: start with thread #{to}")
         else:
             (f, ln), st = where
-            tag = f"{FILE_TAGS[f]}:{ln}" if f >= 0 else "before its first traced line"
-            kind = "PREEMPT" if cost else {"sleep": "yields (sleep/poll)", "block": "blocks on the hub lock",
-                                           "done": "ends"}.get(st, st)
-            out.append(f"decision {step}: thread #{frm} {kind} at {tag} -> thread #{to}")
+            tag = f"{FILE_TAGS[f]}:{ln} `{_src(f, ln)}`" if f >= 0 else "its first traced line"
+            if cost:
+                out.append(f"decision {step}: thread #{frm} is PREEMPTED before executing {tag} -> thread #{to}")
+            else:
+                kind = {"sleep": "yields (sleep / failed polling round)", "block": "blocks on the hub lock",
+                        "done": "ends"}.get(st, st)
+                out.append(f"decision {step}: thread #{frm} {kind} (last line {tag}) -> thread #{to}")
     return out
